@@ -184,3 +184,46 @@ pub fn c13_learning_flag_table() {
     }
     witness!();
 }
+
+/// C15, first clause at slice level: every refresh sets a peer's expiry to now + own peer timeout, and the tick
+/// expires exactly the peers from which nothing arrived for LONGER than the peer timeout (two peers, arbitrary refresh
+/// instants, arbitrary own timeout)
+#[cfg_attr(kani, kani::proof, kani::unwind(6))]
+pub fn c15_silent_peer_expires_exactly_after_timeout() {
+    use crate::util::MockTimeSource;
+    let peer_timeout: Duration = kani::any();
+    let t0: Time = kani::any();
+    let t1: Time = kani::any();
+    let now: Time = kani::any();
+    kani::assume(t0 >= 0 && t0 <= t1 && t1 <= now && now < (1 << 41));
+    let r = XRefresher { config: XNodeCfg { peer_timeout } };
+    let mut a = XPeer { last_seen: 0, timeout: 0, peer_timeout: 300 };
+    let mut b = XPeer { last_seen: 0, timeout: 0, peer_timeout: 300 };
+    MockTimeSource::set_time(t0);
+    r.refresh_slice::<MockTimeSource>(&mut a);
+    MockTimeSource::set_time(t1);
+    r.refresh_slice::<MockTimeSource>(&mut b);
+    assert!(a.timeout == t0 + peer_timeout as Time && b.timeout == t1 + peer_timeout as Time);
+    let mut c = XCloud { peers: Default::default(), update_freq: 1, next_peers: 0 };
+    c.peers.insert(0, a);
+    c.peers.insert(1, b);
+    let del = c.expired_peers_slice(now);
+    let a_gone = now - t0 > peer_timeout as Time;
+    let b_gone = now - t1 > peer_timeout as Time;
+    let mut has_a = false;
+    let mut has_b = false;
+    let mut i = 0;
+    while i < 2 {
+        if i < del.len() {
+            if del[i] == 0 {
+                has_a = true;
+            } else {
+                has_b = true;
+            }
+        }
+        i += 1;
+    }
+    assert!(del.len() <= 2 && has_a == a_gone && has_b == b_gone);
+    vcover!(a_gone && !b_gone, "only_the_silent_peer_goes");
+    witness!();
+}
